@@ -125,7 +125,13 @@ class FileServer(Resource, aiocoap.interfaces.ObservableResource):
         if any("/" in p or p in (".", "..") for p in path):
             raise InvalidPathError()
 
-        return self.root / "/".join(path)
+        joined = "/".join(path)
+        if joined.startswith("/"):
+            # A leading empty component would make this an absolute path,
+            # which pathlib lets replace the root rather than extend it
+            raise InvalidPathError()
+
+        return self.root / joined
 
     async def needs_blockwise_assembly(self, request):
         if request.code != codes.GET:
